@@ -560,6 +560,8 @@ class SymInt:
         if not _isint(o): return NotImplemented
         if isinstance(o, SymInt) and ABSTRACT['nonlinear']:
             return _abstract_result('mul', self, o)
+        if isinstance(o, SymInt):
+            return mk_int(z3.simplify(self.t * o.t), None, (_magof(self) + _magof(o)) if _magof(self) and _magof(o) else None)
         return mk_int(self.t * zi(o))
     __rmul__ = __mul__
 
